@@ -63,7 +63,8 @@ AuxInit == [tid |-> "", mem |-> MemInit,
             txnSubmits |-> <<>>,     \* paths for which a hash job was queued inside the open transaction
             draining |-> FALSE,
             dispatchedAfterFail |-> FALSE,
-            failedOnChange |-> FALSE]   \* a step failed in this phase after one of its inputs changed while it ran
+            failedOnChange |-> FALSE,
+            failReporter |-> EmptyFn]   \* stepKey -> the task that reported its failure in this phase   \* a step failed in this phase after one of its inputs changed while it ran
 
 CounterNames == {"amend", "read", "final_reads_checked", "tainted", "finalize_end", "removed_files", "write", "commit", "wellformed", "transition", "pop_dispatch", "pop_none", "cmd_start",
                  "phase_end", "rpc_reject", "rpc_ok", "hold", "traces", "pop_none_with_eligible", "hash_submit"}
@@ -72,6 +73,7 @@ Bump(c, name) == [c EXCEPT ![name] = @ + 1]
 
 StepKey(label) == "step:" \o label
 SeqToSet(s) == {s[i] : i \in DOMAIN s}
+SeqSet2(s) == {s[i] : i \in DOMAIN s}
 FnOf(pairs) == \* sequence of <<name, units>> -> function
   [n \in {pairs[i][1] : i \in DOMAIN pairs} |->
       pairs[CHOOSE i \in DOMAIN pairs : pairs[i][1] = n][2]]
@@ -152,7 +154,9 @@ SettleInflight(old, new, infl) ==
 OnCommit(e, lineNo) ==
   IF e.same THEN
     /\ UNCHANGED <<st, bad>>
-    /\ aux' = [aux EXCEPT !.inTxn = FALSE]
+    /\ aux' = [aux EXCEPT !.inTxn = FALSE,
+                           \* (the watch on a reported failure ends with the reporting task's next commit)
+                           !.failReporter = Restrict(@, {s \in DOMAIN @ : @[s] # e.task})]
     /\ cnt' = Bump(cnt, "commit")
   ELSE
     LET new == e.state
@@ -183,6 +187,7 @@ OnCommit(e, lineNo) ==
                   \o Mk(e, lineNo, "C03", c03)
     /\ aux' = [aux EXCEPT
           !.inTxn = FALSE,
+          !.failReporter = Restrict(@, {s \in DOMAIN @ : @[s] # e.task}),
           !.failedOnChange = @ \/ (~IsNoState(st) /\ \E s \in Steps(new) :
                                       /\ new.nodes[s].sstate = "FAILED" /\ (s \notin Keys(st) \/ st.nodes[s].sstate # "FAILED")
                                       \* (tainted by an external edit, not by a refused amendment)
@@ -481,6 +486,7 @@ OnPhaseEnd(e, lineNo) ==
                                                                                      /\ st.nodes[f].fhash # NULL}}
                                                  |-> st.nodes["file:" \o p].fhash],
                            !.tainted = {}, !.inputChanged = FALSE, !.taintPath = EmptyFn, !.failedOnChange = FALSE,
+                           !.failReporter = EmptyFn,
                            !.refreshed = {}, !.refreshedPhase = {}]
      /\ UNCHANGED st
 
@@ -617,8 +623,20 @@ OnFault(e, lineNo) ==
   IN /\ bad' = bad \o Mk(e, lineNo, p, c)
      /\ UNCHANGED <<st, aux, cnt>>
 
+\* C19: "... or a requested target was invalid".  A process that refuses its targets as invalid must not
+\* do so for a path that the plan, as it is on disk now, has a step build (the project description says so).
+OnProcEnd(e, lineNo) ==
+  LET built == {r[1] : r \in {x \in SeqSet2(e.target_roles) : x[2] = "output"}}
+      c == IF e.invalid_target /\ e.target_roles # <<>> /\ \A i \in DOMAIN e.target_roles : e.target_roles[i][2] = "output"
+           THEN {<<"target_called_invalid_although_the_current_plan_builds_it", built>>} ELSE {}
+  IN /\ bad' = bad \o Mk(e, lineNo, "C19", c)
+     /\ UNCHANGED <<st, aux, cnt>>
+
 Handle(e, lineNo) ==
   CASE e.ev = "proc_start" -> OnProcStart(e)
+    [] e.ev = "proc_end" -> OnProcEnd(e, lineNo)
+    [] e.ev = "report_fail" -> /\ aux' = [aux EXCEPT !.failReporter = Put(@, StepKey(e.step), e.task)]
+                               /\ UNCHANGED <<st, bad, cnt>>
     [] e.ev = "commit" -> OnCommit(e, lineNo)
     [] e.ev = "begin" -> OnBegin(e, lineNo)
     [] e.ev = "rollback" -> OnRollback(e, lineNo)
